@@ -498,15 +498,21 @@ def generate(prop, seed, tier):
     faulty = fr.random() < 0.5
     scn = {'prop': 'C09', 'engine': 'ttest', 'seed': seed, 'precision': r.choice(['float32', 'float64']),
            'tdtype': r.choice(['uint8', 'uint8', 'float32'] + (['int16', 'float64', 'int8'] if thorough else [])),
-           'm': m, 'amp': r.choice([1, 3, 15]), 'sets': sets, 'rule': rule, 'frame': frame, 'chain': chain, 'table_seed': rng.H(seed, 'table'),
+           'm': m, 'amp': r.choice([1, 3, 15, 255]), 'sets': sets, 'rule': rule, 'frame': frame, 'chain': chain, 'table_seed': rng.H(seed, 'table'),
            'granularity': 'line' if (not thorough or sr.random() < 0.85) else 'call',
            'workers': [kn.choice([1, 1, 2, 16]), kn.choice([1, 1, 2, 16])],
            'rule_flip': None, 'stall': None, 'faults': []}
     npol = 4 if not faulty else 2
     names = sr.sample(POLICIES, npol)
     scn['policies'] = [gen_policy(sr, nme) for nme in names]
+    if scn['tdtype'] == 'int8':
+        scn['amp'] = min(scn['amp'], 254)
     if kn.random() < 0.15:
         scn['rule_flip'] = {'at': kn.randint(5, 400), 'rule': kn.choice([1, 2, 5, 9])}
+        if not sums_exact(scn):
+            # a flip of the process-global batch rule can change the batch partition differently under different schedules; results are
+            # then only equal up to rounding unless every sum is exact - and schedule independence is judged bitwise
+            scn['rule_flip'] = None
     if kn.random() < 0.15:
         scn['stall'] = {'thread': kn.choice([1, 2]), 'after_read': kn.randint(1, 4), 'decisions': kn.choice([50, 300, 2000])}
     if faulty:
@@ -522,6 +528,14 @@ def generate(prop, seed, tier):
             if kind == 'callback_error':
                 nth = max(1, nth) * len(chain) - fr.randrange(len(chain))
             scn['faults'].append({'kind': kind, 'thread': t, 'run': j, 'nth': int(nth)})
+        if nruns >= 2 and fr.random() < 0.45:
+            # a second failing run() on the same analysis object: every failing run must re-raise, not only the first
+            f0 = scn['faults'][0]
+            j2 = fr.choice([x for x in range(nruns) if x != f0['run']])
+            t2 = f0['thread'] if fr.random() < 0.6 else 3 - f0['thread']
+            b = rule if isinstance(rule, int) else 10
+            nb2 = max(1, -(-sets[j2][t2 - 1] // max(1, b)))
+            scn['faults'].append({'kind': 'storage_read_error', 'thread': t2, 'run': j2, 'nth': fr.randint(1, nb2)})
     return scn
 
 
@@ -545,6 +559,23 @@ def image(scn, samples):
     fr = np_frame(scn['frame'])
     E = samples if fr is None or fr is Ellipsis else samples[:, list(fr) if isinstance(fr, range) else fr]
     return pure_chain(scn['chain'], np.ascontiguousarray(E))
+
+
+def sums_exact(scn):
+    """Every accumulated sum / sum of squares of the frame+preprocess images is an integer below 2^24 (float32) / 2^53 (float64)."""
+    lim = (1 << 24) if np.dtype(scn['precision']).itemsize == 4 else (1 << 53)
+    tot1 = tot2 = 0.0
+    for a, b in make_sets(scn):
+        for t, img in ((1, image(scn, a)), (2, image(scn, b))):
+            x = np.abs(np.asarray(img, dtype='float64'))
+            if x.size and x.max() * x.max() > (1 << 24) and np.asarray(img).dtype == np.float32:
+                return False           # the image itself was computed in float32 and may already be rounded
+            q = float((x * x).sum(0).max()) if x.size else 0.0
+            if t == 1:
+                tot1 += q
+            else:
+                tot2 += q
+    return max(tot1, tot2) < lim
 
 
 # ----------------------------------------------------------------------------- reference
@@ -679,8 +710,6 @@ def run_schedule(scn, policy=None, schedule=None):
                     finally:
                         sim.threads['main']['state'] = 'runnable'
                 sim.settle()
-                if exc is not None:
-                    break
     except SimAbort:
         pass
     finally:
@@ -724,15 +753,19 @@ def judge(scn, ex, images):
             return viol('no_termination', ['C09', 'no_termination'], 'run() did not return within %d decisions after the fault fired' % sim.cap)
         raise RuntimeError('decision cap exceeded without faults (cap %d)' % sim.cap)
     inj = ex['injected']
+    failed_before = False
     for j, o in enumerate(ex['outcomes']):
         fired_here = [f for f in fired if f['run'] == j]
+        o['after_failure'] = failed_before
         if fired_here:
+            failed_before = True
             exc = o['exc']
             if exc is None:
                 if o['fresh_result']:
-                    return viol('failure_not_reraised', ['C09', 'failure_not_reraised', 'result_set'],
+                    return viol('failure_not_reraised', ['C09', 'failure_not_reraised', 'result_set', 'repeated' if o['after_failure'] else 'first'],
                                 'run %d: %s fired but run() returned normally and set a result' % (j, [f['kind'] for f in fired_here]))
-                return viol('failure_not_reraised', ['C09', 'failure_not_reraised', 'no_result'], 'run %d: fault fired but run() returned normally' % j)
+                return viol('failure_not_reraised', ['C09', 'failure_not_reraised', 'no_result', 'repeated' if o['after_failure'] else 'first'],
+                            'run %d: fault fired but run() returned normally' % j)
             ok = any(exc is e for e in inj)
             c = exc
             seen = 0
@@ -745,7 +778,11 @@ def judge(scn, ex, images):
                             'run %d: injected %s but run() raised %r (context %r)' % (j, [type(e).__name__ for e in inj], exc, getattr(exc, '__context__', None)))
             if o['fresh_result']:
                 return viol('result_despite_failure', ['C09', 'result_despite_failure'], 'run %d raised %r but a fresh result was set' % (j, exc))
-            return None       # nothing is promised after a failed run
+            continue
+        if failed_before:
+            # an earlier run() failed: its accumulators hold a schedule-dependent part of a set, so the value of later results is not promised;
+            # only later *failing* runs are judged (they must re-raise, above)
+            continue
         if o['exc'] is not None:
             return viol('run_raised', ['C09', 'run_raised', type(o['exc']).__name__], 'run %d raised %r without any injected fault' % (j, o['exc']))
         A = np.concatenate([images[i][0] for i in range(j + 1)])
@@ -824,6 +861,8 @@ def execute(scn):
         for ex in results[1:]:
             for j, (o0, o1) in enumerate(zip(base['outcomes'], ex['outcomes'])):
                 if o0['result'] is None or o1['result'] is None or o0['exc'] is not None or o1['exc'] is not None:
+                    continue
+                if o0.get('after_failure') or o1.get('after_failure'):
                     continue
                 if not compare.bitwise(o0['result'], o1['result']):
                     violation = viol('schedule_dependent_result', ['C09', 'schedule_dependent_result'],
